@@ -566,8 +566,9 @@ class Execution:
                 self.log(i, kind, "raise", type(e).__name__)
                 return
             if nt is t or no is o:
-                self.violation("upgrade-returned-input", i, [op["theory"], op["obs"]], "update() returned the caller's object")
-                return
+                # not a violation by itself: the property forbids *modifying* the caller's cards (checked by
+                # the fingerprints after every op), not handing an untouched card back
+                self.probes["upgrade_returned_input_object"] += 1
             if kind == "upgrade_twice":
                 snap_t, snap_o = copy.deepcopy(nt), copy.deepcopy(no)
                 nt2, no2 = compatibility.update(nt, no)
